@@ -57,7 +57,7 @@ pub fn run(op: &str, a: &[&str]) -> Option<String> {
         "beacon_enc" | "beacon_dec" | "beacon_rt" => beacon_op(op, a),
         "keyrt" | "genkey" => key_op(op, a),
         "ni_enc" | "ni_dec" | "ni_rt" => ni_op(op, a),
-        "im_parse" | "rot_dec" | "rot_enc" => codec_op(op, a),
+        "im_parse" | "rot_dec" | "rot_enc" | "pubkey" => codec_op(op, a),
         _ => return None,
     })
 }
@@ -387,10 +387,19 @@ pub fn codec_op(op: &str, a: &[&str]) -> String {
             } else {
                 None
             };
+            // optional 7th argument: the 4-byte salt of the key hash (default 11223344)
+            let key_salt = if a.len() > 6 {
+                let v = unhex(a[6]);
+                Some([v[0], v[1], v[2], v[3]])
+            } else {
+                None
+            };
             let (msg, signed, sig, res) =
-                crate::crypto::verif_init::build_and_parse(&body, &seed, &trusted, a[1] != "0", a[2] == "1", &unhex(a[3]), trunc, sig_len);
+                crate::crypto::verif_init::build_and_parse(&body, &seed, &trusted, a[1] != "0", a[2] == "1", &unhex(a[3]), trunc, sig_len, key_salt);
             format!("{} MSG={} SIGNED={} SIG={}", res, hex(&msg), signed, hex(&sig))
         }
+        // the public key of harness key pair k (constants of the harness; pinned in py/props/c01.py)
+        "pubkey" => format!("ok {}", hex(&hcm::seed_public_key(&crate::verif_driver::conn::key_seed(num(a[0]))))),
         "rot_dec" => match crate::crypto::verif_rotate::rot_decode(&unhex(a[0])) {
             Some((id, p, c)) => format!("ok {} {} {}", id, hex(&p), c.map(|c| hex(&c)).unwrap_or("none".into())),
             None => "err".into(),
